@@ -43,7 +43,7 @@ MIN_PER_WORKER = 2
 
 
 def cases(tier, seed):
-    n = 64 if tier == "quick" else 1800
+    n = 64 if tier == "quick" else 12000
     return [{"rep": i, "seed": seed} for i in range(n)]
 
 
